@@ -213,6 +213,7 @@ cmp_loop:
 			wptr = memchr(wptr, what[0], off);
 			if (NULL == wptr)
 				goto re_search;
+			off = (size_t)(wptr_max - wptr); /* wptr moved: less bytes left. */
 			if (0 == memcmp(wptr, what, off))
 				goto cmp_loop; /* Found, continue cmp. */
 		}
